@@ -2,8 +2,8 @@
     flags advProj ("the advanced state is the end of a step that left attemptDAEStep through its projecting exit,
     or the projected initial / backed-up state") and intProj ("the interpolated state was created with projection").
     That a projection achieves its tolerance is the contract of System::project (C09) and is not modelled. *)
-From Coq Require Import QArith List Bool.
-Require Import C19_Model C19_Proofs.
+From Coq Require Import QArith List Bool Reals.
+Require Import Num C19_Model C19_Proofs C21_Model C21_Proofs.
 Import ListNotations.
 Local Open Scope Q_scope.
 
@@ -27,3 +27,34 @@ Theorem C21_hypotheses_satisfiable :
   Forall (fun o => proj o = true) ex_orc.
 Proof. exact c21_hypotheses_satisfiable. Qed.
 Print Assumptions C21_hypotheses_satisfiable.
+
+(** ------------------------------------------------------------------------------------------
+    where the per-step flag [proj] comes from: the attempt loop of takeOneStep with the default attemptDAEStep and
+    adjustStepSize (C21/C21_Model.v), over the reals *)
+(** adjustStepSize accepts a step whose error estimate is not finite (e.g. not converged) or exceeds the accuracy
+    only when the user's minimum step size forbids shrinking *)
+Theorem C21_adjust_accepts_bad_step_only_at_min_step fin zero limited (cand h:R) minS maxS :
+  (0 < h)%R -> (fin = false \/ (zero = false /\ (cand < h)%R)) ->
+  snd (adjust ROps fin zero limited false cand h minS maxS) = true ->
+  exists m, minS = Some m /\ (h <= m)%R.
+Proof. exact (adjust_accepts_bad_step_only_at_min_step fin zero limited cand h minS maxS). Qed.
+Print Assumptions C21_adjust_accepts_bad_step_only_at_min_step.
+
+(** the step accepted by takeOneStep left attemptDAEStep through its projecting exit, unless it was accepted at a step
+    size not above the user's minimum step size *)
+Theorem C21_unprojected_step_only_at_min_step_partial minS maxS l (h hu hn:R) :
+  (0 < h)%R -> (forall M, maxS = Some M -> (0 < M)%R) -> atts_ok minS maxS h l ->
+  attempts ROps true minS maxS h l = Some (false, hu, hn) ->
+  exists m, minS = Some m /\ (hu <= m)%R.
+Proof. exact (unprojected_step_only_at_min_step_partial minS maxS l h hu hn). Qed.
+Print Assumptions C21_unprojected_step_only_at_min_step_partial.
+
+(** ... and at the minimum step size an unprojected step is accepted (exact rationals; replayed on RungeKutta2/3) *)
+Theorem C21_every_accepted_step_projected_refuted :
+  attempts QOps true (Some (1#10)%Q) None (1#10)%Q [bad_attempt] = Some (false, (1#10)%Q, (1#10)%Q).
+Proof. exact every_accepted_step_projected_refuted. Qed.
+Print Assumptions C21_every_accepted_step_projected_refuted.
+
+Theorem C21_attempt_contract_satisfiable : atts_ok (Some (1/10)%R) None (1/10)%R [bad_attempt_R] /\ (0 < 1/10)%R.
+Proof. exact contract_satisfiable. Qed.
+Print Assumptions C21_attempt_contract_satisfiable.
